@@ -234,6 +234,9 @@ func (r *SymResult) Usable() (bool, string) {
 	if r.Overflow {
 		return false, "too many paths"
 	}
+	if r.Cuts > 0 && !r.allowCut {
+		return false, "the function loops: paths beyond the analysis bound were not explored"
+	}
 	var ts []string
 	seen := map[string]bool{}
 	for _, t := range r.Traces {
